@@ -6,7 +6,9 @@
 //!   harness gen <prop> <seed> <tier>  stdout: cases
 //!   harness oracle <prop>           stdin: "case | answer" lines, stdout: failing clauses
 mod eng_addr;
+mod eng_pte;
 mod gen_addr;
+mod gen_tbl;
 mod util;
 
 use util::*;
@@ -19,6 +21,7 @@ fn main() {
             let eng = args[2].as_str();
             let f: fn(&[u64]) -> Vec<i128> = match eng {
                 "addr" => eng_addr::run,
+                "pte" => eng_pte::run,
                 _ => panic!("unknown engine"),
             };
             for_each_line(|l| fmt_out(&f(&parse_line(l))));
@@ -32,6 +35,7 @@ fn main() {
             let mut out = std::io::BufWriter::with_capacity(1 << 16, stdout.lock());
             match prop {
                 "C03" | "C04" | "C05" | "C06" | "C07" => gen_addr::gen(prop, seed, thorough, &mut out),
+                "C08" | "C12" | "C14" | "C15" => gen_tbl::gen(prop, seed, thorough, &mut out),
                 _ => panic!("unknown property"),
             }
         }
@@ -39,6 +43,7 @@ fn main() {
             let prop = args[2].as_str();
             match prop {
                 "C03" | "C04" | "C05" | "C06" | "C07" => gen_addr::oracle(prop),
+                "C08" | "C12" | "C14" | "C15" => gen_tbl::oracle(prop),
                 _ => panic!("unknown property"),
             }
         }
